@@ -90,7 +90,10 @@ RemoveAt(s, j) == SubSeq(s, 1, j - 1) \o SubSeq(s, j + 1, Len(s))
 Flag(stack, k) == IF LastIdx(stack, k) > 0 THEN 1 ELSE 0
 StyleOf(stack) ==
   [b |-> Flag(stack, "b"), i |-> Flag(stack, "i"), u |-> Flag(stack, "u"),
-   col |-> LET j == LastIdx(stack, "font") IN IF j = 0 THEN <<>> ELSE stack[j].col]
+   \* the colour of the innermost font tag THAT HAS ONE (a font tag without a colour, or with a colour that is not one,
+   \* styles nothing: what it encloses keeps the colour in force)
+   col |-> LET S == {j \in 1..Len(stack) : stack[j].k = "font" /\ stack[j].col # <<>>}
+           IN  IF S = {} THEN <<>> ELSE stack[CHOOSE j \in S : \A x \in S : x <= j].col]
 Item(c, sty) == [c |-> c, b |-> sty.b, i |-> sty.i, u |-> sty.u, col |-> sty.col]
 BrItem == [c |-> 10, b |-> 0, i |-> 0, u |-> 0, col |-> <<>>]
 
@@ -98,7 +101,8 @@ TagInit == [stack |-> <<>>, out |-> <<>>, stray |-> 0]
 
 (* One token.  A closing tag closes the nearest open tag OF ITS KIND and leaves the others open: this is
    "applies to exactly the characters it encloses" also when tags cross (<b>x<i>y</b>z</i>: x{b} y{b,i} z{i}).
-   A closing tag with nothing to close is outside the grammar: it is counted (stray) and ignored.        *)
+   A closing tag with nothing to close encloses nothing: it is counted (stray) and ignored.  Tags of other kinds (any
+   name) are opened and closed the same way and style nothing.                                            *)
 TagStep(ts, tok) ==
   CASE tok.t = "open"  -> [ts EXCEPT !.stack = Append(@, [k |-> tok.k, col |-> ColourOf(tok)])]
     [] tok.t = "close" -> LET j == LastIdx(ts.stack, tok.k) IN
